@@ -80,6 +80,10 @@ class Adapter:
             spec = dict(self.case["member"])
             simu, mesh, beam, frame = gb.build_member(spec)
             self.spec = spec
+            if self.case.get("algo"):
+                # a dynamic beam analysis: the velocity and the acceleration belong to the state
+                simu.rho = 2.0
+                simu.Solver_Set_Hyperbolic_Algorithm(0.2, algo=AlgoType(self.case["algo"]), alpha=0.1)
             return simu
         mesh = _mesh2d(recipe)
         if k == "elastic_dyn":
@@ -171,6 +175,9 @@ class Adapter:
             out["accel"] = np.array(simu.accel, float)
         else:
             out["displacement"] = np.array(simu.displacement, float)
+            if k == "beam" and self.case.get("algo"):
+                out["speed"] = np.array(simu._Get_v_n(simu.problemType), float)
+                out["accel"] = np.array(simu._Get_a_n(simu.problemType), float)
         return out
 
     def results(self, simu):
@@ -282,6 +289,7 @@ def histories(draw, kinds=KINDS):
     case["audit"] = draw(st.sampled_from(["each", "end"]))
     if kind == "beam":
         case["member"] = draw(gb.member_specs(dims=(2,), types=("SEG2", "SEG3")))
+        case["algo"] = draw(st.sampled_from([None, None, "newmark", "midpoint", "hht"]))  # static or dynamic member
     if kind == "elastic_dyn":
         case["algo"] = draw(st.sampled_from(["newmark", "midpoint", "hht", "hht_newmark", "euler_implicit", "euler_explicit"]))
     if kind == "phasefield":
